@@ -28,8 +28,9 @@ def trace(D, y):
     xn1 = (Dn >> 64) & MASK
     xn0 = Dn & MASK
     flags = {"q1_dec": 0, "q0_dec": 0, "q1_rhat_eq_b": False, "q0_rhat_eq_b": False, "q1_eq": False, "q0_eq": False,
-             "q1_break": False, "q0_break": False}
+             "q1_break": False, "q0_break": False, "q1_est_gt_b": False, "q0_est_gt_b": False}
     q1, rhat = divmod(xn32, yn1)
+    flags["q1_est_gt_b"] = q1 > B
     while q1 >= B or q1 * yn0 > rhat * B + xn1:
         q1 -= 1
         rhat += yn1
@@ -42,6 +43,7 @@ def trace(D, y):
         flags["q1_eq"] = q1 * yn0 == rhat * B + xn1
     t = (xn32 * B + xn1 - q1 * yn) % (1 << 128)
     q0, rhat = divmod(t, yn1)
+    flags["q0_est_gt_b"] = q0 > B
     while q0 >= B or q0 * yn0 > rhat * B + xn0:
         q0 -= 1
         rhat += yn1
@@ -253,3 +255,123 @@ def api_small_divisor_top_word(rng, n, fD, fixed_n=None):
                     out.append(("divr", fD(rng.choice((1, -1)) * x, p), fD(rng.choice((1, -1)) * y, q), nn))
                     break
     return out
+
+
+def _divisor_lo_gt_hi(rng):
+    """A divisor >= 2^64 whose normalised low word exceeds its normalised high word (only then can a quotient-digit
+    estimate reach 2^64 + 1). Returns (y, n_bits, yn1, yn0)."""
+    for _ in range(100):
+        bl = rng.randrange(65, 128)
+        n_bits = 128 - bl
+        yn1 = rng.randrange(1 << 63, (1 << 64) - 2)
+        if rng.random() < 0.5:
+            yn1 = (1 << 63) + rng.getrandbits(rng.randrange(1, 62))
+        yn0 = rng.randrange(yn1 + 1, 1 << 64)
+        yn0 &= ~((1 << n_bits) - 1)
+        if yn0 <= yn1:
+            continue
+        return ((yn1 << 64) | yn0) >> n_bits, n_bits, yn1, yn0
+    return None
+
+
+def first_in_range(A, Mod, L, R):
+    """Smallest x >= 0 with L <= A * x mod Mod <= R (0 <= L <= R < Mod), or -1. Euclid-like, O(log Mod)
+    (validated against brute force in oracle selftest)."""
+    if L == 0:
+        return 0
+    A %= Mod
+    if A == 0:
+        return -1
+    if 2 * A > Mod:
+        return first_in_range(Mod - A, Mod, Mod - R, Mod - L)
+    k = -(-L // A)
+    if k * A <= R:
+        return k
+    y = first_in_range(A - Mod % A, A, L % A, R % A)
+    if y < 0:
+        return -1
+    return (L + Mod * y + A - 1) // A
+
+
+def est_gt_b_operand(which, K, y):
+    """x with 0 < x <= M such that the division of D = x * K by y (y >= 2^64, normalised low word > high word) meets a
+    quotient-digit estimate of 2^64 + 1 in the first ('q1') or second ('q0') digit; or None.
+    With Dn = D << n_bits and top = Dn >> 64 the condition is: q1: top >> 64 in [(B+1)*yn1, yn); q0: top mod yn in
+    [(B+1)*yn1, yn) (and top < yn * 2^64, the kernel's precondition)."""
+    n_bits = 128 - y.bit_length()
+    yn = y << n_bits
+    yn1, yn0 = yn >> 64, yn & MASK
+    if yn0 <= yn1 or y < B:
+        return None
+    g = K << n_bits
+    tz = (g & -g).bit_length() - 1
+    j = max(0, 64 - tz)                 # x must be a multiple of 2^j so that the low 64 bits of Dn vanish
+    a = (g << j) >> 64
+    L, R = (B + 1) * yn1, yn - 1
+    if which == "q1":
+        xp = -(-(L << 64) // a)
+        if xp * a >= yn << 64:
+            return None
+    else:
+        xp = first_in_range(a, yn, L, R)
+        if xp <= 0 or xp * a >= yn << 64:
+            return None
+    x = xp << j
+    if not 0 < x <= M:
+        return None
+    f = trace(x * K, y)
+    if not f or not f[which + "_est_gt_b"]:
+        return None
+    return x
+
+
+def est_gt_b_requests(rng, n, fD):
+    """Kernel and API requests whose division hits a quotient-digit estimate of 2^64 + 1 (verified with trace())."""
+    out = []
+    stats = {"q1": 0, "q0": 0}
+    for _ in range(n):
+        for which in ("q1", "q0"):
+            # product / divisor: x1 * x2 / y, also as mul_rounded when y = 10^32
+            for y in (None, 10 ** 32):
+                if y is None:
+                    d = _divisor_lo_gt_hi(rng)
+                    if d is None:
+                        continue
+                    y = d[0]
+                x2 = rng.getrandbits(rng.randrange(40, 127)) | 1
+                if rng.random() < 0.5:
+                    x2 <<= rng.randrange(1, 40)
+                    x2 = min(x2, M)
+                x1 = est_gt_b_operand(which, x2, y)
+                if x1:
+                    stats[which] += 1
+                    out.append("k_i256 %d %d %d" % (rng.choice((1, -1)) * x1, rng.choice((1, -1)) * x2, y))
+                    if y == 10 ** 32:
+                        for _try in range(20):
+                            p, q = rng.randrange(14, 19), rng.randrange(14, 19)
+                            if 0 <= p + q - 32 <= 18:
+                                out.append("mulr vv %s %s %d" % (fD(x1, p), fD(-x2, q), p + q - 32))
+                                out.append("mulr rr %s %s %d" % (fD(-x2, q), fD(-x1, p), p + q - 32))
+                                break
+            # scaled dividend / divisor: x * 10^k / y
+            d = _divisor_lo_gt_hi(rng)
+            if d is None or d[0] > M:
+                continue
+            y = d[0]
+            k = rng.randrange(1, 37)
+            x = est_gt_b_operand(which, 10 ** k, y)
+            if x:
+                stats[which] += 1
+                out.append("k_shdm %d %d %d" % (rng.choice((1, -1)) * x, k, y))
+                out.append("k_shdr %d %d %d %s" % (x, k, rng.choice((1, -1)) * y, rng.choice(("RoundHalfEven", "RoundUp", "RoundFloor"))))
+                qs = [q for q in range(19) if 0 <= 18 + q - k <= 18]
+                if qs:
+                    q = rng.choice(qs)
+                    out.append("%s %s %s %s" % (rng.choice(("div", "cdiv")), rng.choice(("vv", "*", "rr")),
+                                                fD(rng.choice((1, -1)) * x, 18 + q - k), fD(rng.choice((1, -1)) * y, q)))
+                for _try in range(10):
+                    nn, q = rng.randrange(0, 19), rng.randrange(0, 19)
+                    if 0 <= nn + q - k <= 18:
+                        out.append("divr vv %s %s %d" % (fD(x, nn + q - k), fD(rng.choice((1, -1)) * y, q), nn))
+                        break
+    return [r for r in out if r], stats
